@@ -497,8 +497,8 @@ Proof.
   rewrite (has_ty_not_nil _ _ Hk), (has_ty_not_nil _ _ Hv). reflexivity.
 Qed.
 
-(* the sizes 15, 16, 17 of the correspondence span the default capacities of the source tree
-   (Params.v is regenerated from stack.go / queue.go on every run) *)
-Lemma default_capacities_spanned :
-  (15 < default_stack_cap <= 16)%nat /\ (15 < default_queue_cap <= 16)%nat.
-Proof. vm_compute. repeat split; repeat constructor. Qed.
+(* the default capacities of the source tree (Params.v is regenerated from stack.go / queue.go on every run) are
+   positive; the correspondence takes its sizes around them from DefaultCapacity() at run time *)
+Lemma default_capacities_positive :
+  (1 <=? default_stack_cap)%nat = true /\ (1 <=? default_queue_cap)%nat = true.
+Proof. split; reflexivity. Qed.
